@@ -192,7 +192,7 @@ class Templates:
                     self.events.append(tk)
 
     # ------------------------------------------------------------------ rendering
-    def callee_templates(self, tk):
+    def callee_templates(self, tk, types=True):
         """Templates of the hand-written function of this crate whose result is interpolated by
         `tk` (`let x = self.helper(..); quote!(.. #x ..)`), or None."""
         if tk.kind != "interp":
@@ -209,6 +209,8 @@ class Templates:
                 break
             ty = m.group(1)
         if ty.startswith("darling_core::"):
+            if not types:
+                return None
             name = "<%s as quote::to_tokens::ToTokens>::to_tokens" % ty
             if name not in idx:
                 idx[name] = None
@@ -220,7 +222,6 @@ class Templates:
             return idx[name]
         if tk.src is None:
             return None
-        ds = [d for d in b.defs().get(tk.src, []) if not b.is_cleanup(d[0])]
         cur = tk.src
         for _ in range(6):
             ds = [d for d in b.defs().get(cur, []) if not b.is_cleanup(d[0])]
@@ -232,23 +233,39 @@ class Templates:
                 cur = p["local"]
                 continue
             break
-        if len(ds) != 1 or ds[0][2] != "call":
-            return None
-        name = mir.callee_of(ds[0][3])
-        if not name:
-            return None
-        if name not in idx:
-            idx[name] = None
-            raws = [r for r in b.crate["bodies"] if r["key"] == name]
-            if len(raws) == 1 and raws[0]["kind"] in ("Fn", "AssocFn", "Closure"):
-                cb = mir.Body(raws[0], b.crate)
-                if not cb.derived:
-                    t = Templates(cb)
-                    if t.events:
-                        idx[name] = t
-        return idx[name]
+        # one definition, or one per branch (`let piece = if c { helper(..) } else { TokenStream::new() }`)
+        found = []
+        for d in ds:
+            if d[2] != "call":
+                return None
+            name = mir.callee_of(d[3])
+            if name in ("proc_macro2::TokenStream::new",) or (name or "").endswith("Default>::default"):
+                continue
+            # `cond.then(|| quote!(..))`, `opt.map(|x| quote!(..))`: the tokens come from the closure
+            for a in d[3]["args"]:
+                if a["k"] in ("copy", "move") and not a["p"]["proj"]:
+                    for d2 in b.defs().get(a["p"]["local"], []):
+                        if d2[2] == "assign" and d2[3]["r"]["k"] == "aggregate" and d2[3]["r"]["agg"] == "closure":
+                            name = d2[3]["r"]["closure"]
+            if not name:
+                return None
+            if name not in idx:
+                idx[name] = None
+                raws = [r for r in b.crate["bodies"] if r["key"] == name]
+                if len(raws) == 1 and raws[0]["kind"] in ("Fn", "AssocFn", "Closure"):
+                    cb = mir.Body(raws[0], b.crate)
+                    if not cb.derived:
+                        t = Templates(cb)
+                        if t.events:
+                            idx[name] = t
+            if idx[name] is None:
+                return None
+            found.append(idx[name])
+        if len(found) == 1:
+            return found[0]
+        return None
 
-    def render(self, stream, depth=0, seen=None, follow=False):
+    def render(self, stream, depth=0, seen=None, follow="fns"):
         """Flat list of token strings of `stream`, groups expanded; interpolations as ⟨type⟩.
         follow=True also expands interpolated token streams returned by helper functions of the
         crate (what ends up in the output does not depend on how the generator is cut into fns)."""
@@ -278,17 +295,22 @@ class Templates:
                             out.append("|")
                         out[-1] = "⟩"
                 else:
-                    ct = self.callee_templates(tk) if follow and depth < 6 and tk.ty else None
+                    # follow="fns": helper fns / closures of the crate only; follow=True: also the
+                    # ToTokens impls of crate types (everything that ends up in the output)
+                    ct = self.callee_templates(tk, types=(follow is True)) if follow and depth < 6 and tk.ty else None
                     if ct is not None and ct is not self:
                         roots = ct.root_streams()
-                        out.append("⟨alt")
-                        for a in roots:
-                            out.extend(ct.render(a, depth + 2, None, follow))
-                            out.append("|")
-                        if roots:
-                            out[-1] = "⟩"
+                        if len(roots) == 1:
+                            out.extend(ct.render(roots[0], depth + 2, None, follow))
                         else:
-                            out.append("⟩")
+                            out.append("⟨alt")
+                            for a in roots:
+                                out.extend(ct.render(a, depth + 2, None, follow))
+                                out.append("|")
+                            if roots:
+                                out[-1] = "⟩"
+                            else:
+                                out.append("⟩")
                     else:
                         out.append("⟨%s⟩" % (tag(tk.ty),))
             elif tk.kind == "append":
